@@ -10,7 +10,7 @@ def make_cases(tier, seed):
 
 def run(ctx):
     return memlib.run_family(
-        ctx, PID, make_cases,
+        ctx, PID, make_cases, wire_every=2,
         rule="seeded random programs of ZADD (all options, both letter cases) / ZREM / ZRANGE (negative and out-of-range "
              "windows, REV, WITHSCORES, malformed options) / ZRANK over 1-3 keys with many tied scores, plus shaped programs "
              "(ascending / descending / zigzag / random insertion orders of 3-40 scores, then deletions of roots and inner "
